@@ -10,6 +10,7 @@ CONSTANT DocMenu <- DMa1
 CONSTANT Lims <- L0
 CONSTANT MaxSteps = 1000000
 CONSTANT Thin = 1
+CONSTANT KeepRoleHist = FALSE
 CONSTANT PageGap = TRUE
 SPECIFICATION PSpec
 CONSTRAINT Progress
